@@ -36,9 +36,10 @@ def irf_fingerprint():
     """SHA-256 over the arrays of every cached response object (immutability of the cache)"""
     import ixpeobssim.irf as irf
     h = hashlib.sha256()
-    for k in sorted(irf.__dict__['__CACHE']):
-        obj = irf.__dict__['__CACHE'][k]
-        h.update(k.encode())
+    cache = irf.__dict__['__CACHE']
+    for k in sorted(cache, key=str):
+        obj = cache[k]
+        h.update(str(k).encode())
         for name in ('x', 'y', 'z'):
             for holder in (obj, getattr(obj, 'matrix', None), getattr(obj, 'generator', None)):
                 a = getattr(holder, name, None) if holder is not None else None
@@ -47,7 +48,7 @@ def irf_fingerprint():
     return h.hexdigest()
 
 
-def obssim(config, seed, dus, outdir, tag, roi=None, duration=300.):
+def obssim(config, seed, dus, outdir, tag, roi=None, duration=300., **over):
     """replica of the DU loop of bin/xpobssim.py with a synthetic timeline; the ROI object is reused across the DUs exactly as the application does"""
     import simdrive
     from ixpeobssim.srcmodel import import_roi
@@ -57,7 +58,7 @@ def obssim(config, seed, dus, outdir, tag, roi=None, duration=300.):
     res = {}
     for du in dus:
         path = os.path.join(outdir, '%s_du%d.fits' % (tag, du))
-        simdrive.simulate(cfg, path, gtis=[(0., 0.4 * duration), (0.5 * duration, duration)], du_id=du, seed=seed, roi_model=roi, duration=duration)
+        simdrive.simulate(cfg, path, gtis=[(0., 0.4 * duration), (0.5 * duration, duration)], du_id=du, seed=seed, roi_model=roi, duration=duration, **over)
         res[du] = table_digest(path)
     return res, roi
 
@@ -73,6 +74,17 @@ def perturb(kind, g, d):
         from ixpeobssim.irf import load_irf_set
         load_irf_set('ixpe:obssim:v12', int(g.integers(1, 4)))
         load_irf_set('ixpe:obssim20240101_alpha075:v13', int(g.integers(1, 4)))
+    elif kind == 'other-flavour-irf':      # the gray-filter and SIMPLE-weighting flavours of the *same* response names and DUs the runs use
+        from ixpeobssim.irf import load_arf, load_mrf, DEFAULT_IRF_NAME
+        for du in (1, 2, 3):
+            for kw in (dict(gray_filter=True), dict(simple_weighting=True)):
+                try:
+                    load_arf(DEFAULT_IRF_NAME, du, **kw)
+                    load_mrf(DEFAULT_IRF_NAME, du, **kw)
+                except (SystemExit, RuntimeError):
+                    pass
+    elif kind == 'charging-sim':           # a simulation with GEM charging on (it integrates the charging maps of that DU)
+        obssim('toy_point_source.py', int(g.integers(1, 10 ** 6)), (int(g.integers(1, 4)),), d, 'chrg%d' % int(g.integers(0, 10 ** 6)), duration=100., charging=True, chrgtstep=50.)
     elif kind == 'smearing-matrix':
         from ixpeobssim.srcmodel.spectrum import xSmearingMatrix
         xSmearingMatrix('ixpe:obssim20240101:v13', int(g.integers(1, 4)), 2.)
@@ -83,7 +95,7 @@ def perturb(kind, g, d):
 
 
 def histories_obssim(chk, g, d):
-    kinds = ['rng', 'other-sim', 'other-irf', 'smearing-matrix', 'cold', 'reseed']
+    kinds = ['rng', 'other-sim', 'other-irf', 'other-flavour-irf', 'charging-sim', 'smearing-matrix', 'cold', 'reseed']
     for config in (['toy_point_source.py', 'toy_periodic_source.py'] if chk.tier == 'quick' else ['toy_point_source.py', 'toy_periodic_source.py', 'toy_disk.py', 'toy_point_source_bkg.py']):
         seed = int(g.choice([0, 1, int(g.integers(2, 10 ** 6))]))
         clear_caches()
@@ -114,6 +126,33 @@ def histories_obssim(chk, g, d):
         chk.case(dict(op='obssim', config=config, seeds=[seed, seed + 7]), nontrivial=True)
         if other[1] == ref[1]:
             chk.fail('impl', '%s: seeds %d and %d give identical tables' % (config, seed, seed + 7), dict(oracle='seed-changes', config=config))
+
+
+def histories_options(chk, g, d):
+    """runs with rarely used options whose state lives in module-level caches: gray-filter responses after the standard ones (and the
+    reverse), GEM charging twice in a row on the same detector unit"""
+    from ixpeobssim.irf import load_arf, load_mrf, DEFAULT_IRF_NAME
+    seed = int(g.integers(1, 10 ** 6))
+    du = int(g.integers(1, 4))
+    for opt in (dict(grayfilter=True), dict(charging=True, chrgtstep=100.)):
+        clear_caches()
+        ref, _ = obssim('toy_point_source.py', seed, (du,), d, 'optref', duration=200., **opt)
+        chk.case(dict(op='obssim', options=opt, seed=seed, du=du, history='cold'), nontrivial=False)
+        hist = []
+        for j in range(2):
+            if 'grayfilter' in opt:
+                clear_caches()
+                load_arf(DEFAULT_IRF_NAME, du); load_mrf(DEFAULT_IRF_NAME, du)          # the standard flavour first, then the gray run
+                obssim('toy_point_source.py', seed + 1 + j, (du,), d, 'optstd%d' % j, duration=100.)
+                hist.append('standard responses and a standard run of the same DU first')
+            else:
+                hist.append('the same charging run immediately before')
+            got, _ = obssim('toy_point_source.py', seed, (du,), d, 'optrerun%d' % j, duration=200., **opt)
+            chk.case(dict(op='obssim', options=opt, seed=seed, du=du, history=list(hist)), nontrivial=True)
+            if got != ref:
+                chk.fail('impl', 'toy_point_source with %s, seed %d, DU %d: tables differ from the cold run after the history %s' % (opt, seed, du, hist),
+                         dict(oracle='obssim-options', options=opt, seed=seed, du=du, history=list(hist)))
+                break
 
 
 def post_apps(chk, g, d):
@@ -191,11 +230,13 @@ def main(chk):
     g = rng('C11')
     with scratch() as d:
         histories_obssim(chk, g, d)
+        histories_options(chk, g, d)
         post_apps(chk, g, d)
         dynamic_sites(chk, d)
     return chk.finish(level='proof', trusted=TRUSTED, search=None)
 
 
 def replay(body):
-    out(body['what'])
-    return 1
+    import sys
+    import common
+    return common.replay_rerun(sys.modules[__name__], body)
